@@ -97,13 +97,30 @@ class Prettify(Harness):
         v = ctx['v']
         return [v > 0, z3.IsInt(v * 1000)]
 
+    CANDIDATES = [p + b for b in ('gram', 'byte', 'meter', 'second', 'bit') for p in [''] + SI] + ['tonne', 'kilogram']
+
     def native(self, inputs, label):
         v = Fraction(inputs['v'])
         name, power = inputs['name'], int(inputs['power'])
         src = {'kg': 'kg', 'kilogram': 'kg', 'gram': 'kg', 'bit': 'bit', 'meter': 'm', 'second': 's'}[name]
         if name == 'gram':
             v = v / Fraction(1000) ** power
-        return [{'mode': 'query', 'text': '%s %s^(%d)' % (frac_text(v), src, power)}]
+        reqs = [{'mode': 'query', 'text': '%s %s^(%d)' % (frac_text(v), src, power)}]
+        if label != 'validate':
+            reqs += [{'mode': 'lookup', 'name': n} for n in self.CANDIDATES]
+        return reqs
+
+    @staticmethod
+    def parse_numeral(txt):
+        """plain decimal / a/b / d.ddde+x -> Fraction, or None (recurring / non-decimal forms)"""
+        import re
+        t = txt.strip()
+        if re.match(r'^-?\d+/\d+$', t):
+            return Fraction(t)
+        m = re.match(r'^(-?\d+(?:\.\d+)?)(?:e(-?\d+))?$', t)
+        if not m:
+            return None
+        return Fraction(m.group(1)) * Fraction(10) ** int(m.group(2) or 0)
 
     def judge(self, inputs, label, obs):
         q = obs[0]
@@ -111,20 +128,38 @@ class Prettify(Harness):
             return True, 'panic %s' % (q.get('panic') or q.get('render_panic'))
         j = q.get('json') or {}
         raw = obs_number_json(q)
-        if raw is None or j.get('type') not in ('number', 'duration'):
+        if raw is None or j.get('type') != 'number':
             return False, 'not a plain number reply: %s' % q.get('display')
-        if j.get('type') == 'duration':
-            return False, 'duration reply'
-        shown = j.get('exactValue')
-        unit = j.get('rawUnit') or j.get('rawDimensions')
-        if shown is None or '[' in shown or 'e' in shown:
-            return False, 'numeral not a plain exact decimal: %s' % shown
-        return self.readback(shown, unit, raw, q)
-
-    def readback(self, shown, unit, raw, q):
-        # resolve every printed unit name with rink itself: done by the caller through a second query batch would be
-        # cleaner; here the display is re-evaluated as a query and must give back the raw quantity
-        return 'kernel-only', 'display %r (re-evaluation is done by the c06 readback harness)' % q.get('display')
+        exact = j.get('exactValue')
+        shown = exact if exact is not None else j.get('approxValue')
+        num = self.parse_numeral(shown or '')
+        unit = j.get('rawUnit') or {}
+        if num is None:
+            return False, 'numeral %r is not a plain decimal' % shown
+        names = {r.get('id'): r for r in obs[1:]}
+        table = {}
+        for n, o in zip(self.CANDIDATES, obs[1:]):
+            lk = o.get('lookup')
+            if lk:
+                table[n] = (Fraction(lk['value']), {k: int(e) for k, e in lk['unit'].items()})
+        total = num
+        dims = {}
+        for uname, e in unit.items():
+            if uname not in table:
+                return False, 'printed unit %s not in the readback table' % uname
+            uv, ud = table[uname]
+            total *= uv ** int(e)
+            for k, x in ud.items():
+                dims[k] = dims.get(k, 0) + x * int(e)
+        dims = {k: x for k, x in dims.items() if x}
+        want_v, want_d = raw
+        if dims != want_d:
+            return True, 'display %r reads back with dimensions %s, quantity has %s' % (q.get('display'), dims, want_d)
+        if exact is not None:
+            bad = total != want_v
+        else:
+            bad = want_v == 0 or abs(total / want_v - 1) > Fraction(1, 10 ** 4)
+        return bad, 'display %r reads back as %s (%s), computed quantity is %s' % (q.get('display'), total, 'exact' if exact is not None else 'approx', want_v)
 
     def vectors(self, rng):
         out = []
